@@ -5,13 +5,23 @@
    u8 bit operations are modelled with Z.land / Z.lor / Z.lxor / Z.shiftl / Z.shiftr and an explicit
    truncation to 8 bits (`u8`), exactly as the Rust expressions are written; the arithmetic reading
    (/ 2^k mod 2^b) is a THEOREM (Proofs/Rawdata.v), not a definition.
-   `index.checked_mul(N)` is modelled as written (None above usize::MAX, 64-bit target). `index + 1`
+   `index.checked_mul(N)` is modelled as written (None above usize::MAX of the target U). `index + 1`
    (iterator) and `len * (8 / bpp)` (size_hint) are unbounded here; they coincide with usize arithmetic
    when 8 * len <= usize::MAX (len_ok in Proofs/Rawdata.v), i.e. for every slice below 2 EiB. *)
 From EG Require Import Base.Prelude.
 
-(* the harness runs on a 64-bit target *)
-Definition usize_max : Z := 18446744073709551615.
+(* The width of usize is a parameter of the model: every function that goes through checked_mul /
+   saturating_add takes the target's usize (implicitly, as the instance U of this class).  Rust guarantees
+   usize >= 16 bits; the instances are the three pointer widths Rust supports.  The correspondence runs the
+   64-bit instance (the harness target); the theorems hold for every instance. *)
+Class Usize := { usize_max : Z; usize_at_least_16 : 65535 <= usize_max }.
+Definition usize16 : Usize := {| usize_max := 65535; usize_at_least_16 := proj1 (Z.leb_le 65535 65535) (eq_refl true) |}.
+Definition usize32 : Usize := {| usize_max := 4294967295; usize_at_least_16 := proj1 (Z.leb_le 65535 4294967295) (eq_refl true) |}.
+Definition usize64 : Usize := {| usize_max := 18446744073709551615; usize_at_least_16 := proj1 (Z.leb_le 65535 18446744073709551615) (eq_refl true) |}.
+
+Section WithUsize.
+Context {U : Usize}.
+
 Definition sat_add_usize (a b : Z) : Z := Z.min (a + b) usize_max.
 Definition sat_sub_usize (a b : Z) : Z := Z.max (a - b) 0.
 
@@ -203,3 +213,5 @@ Definition iter_fuel (t : rawty) (s : iter) : nat :=
 
 Definition iter_list (t : rawty) (alt : order) (s : iter) : option (list Z) :=
   iter_collect t alt (iter_fuel t s) s.
+
+End WithUsize.
